@@ -129,7 +129,7 @@ TEXTS["_engines"].append({"name": "ctrl", "path": "harness/conc/ctrl_test.go", "
 TEXTS.update({
     "C03": {
         "text": "Lean theorems over the controller world (server history, cache, watch pipeline positions; list snapshots may reflect ANY earlier history index, the "
-                "watch may end, reconnect, lag or never deliver), for every reachable state: the per-key cut invariant; each list is applied exactly (newest of cached/listed, "
+                "watch may end, reconnect, lag, never deliver, or lose changes to a buffer overflow — label drop), for every reachable state: the per-key cut invariant; each list is applied exactly (newest of cached/listed, "
                 "filter-checked, never regressing) and its events replay; a list of the server's current state makes the cache equal the accepted server state from ANY reachable "
                 "state (convergence after one relist without any help from the watch); every cached object occurred in the history; a list result is always accepted while running.",
         "design_ref": "DESIGN.md §7 C03",
@@ -139,8 +139,9 @@ TEXTS.update({
     },
     "C04": {
         "text": "Lean theorems on the controller world: pipeline positions stay ordered; a reconnect resumes at the watcher's resume point (nothing received is discarded, nothing later is "
-                "skipped); watch-side steps never touch the cache; whenever every server change has been applied the cache equals the accepted server state (continuity, no relist "
-                "needed, for every fault schedule and slow list); while something is outstanding some pipeline step is enabled and each step decreases the lag measure.",
+                "skipped); watch-side steps never touch the cache; whenever every server change has been applied and none was lost to a buffer overflow since the last list the cache equals the accepted server state "
+                "(continuity, no relist needed, for every fault schedule and slow list); only an overflow loses a change, and a reachable witness shows that a lost change is "
+                "never recovered by the watch (overflow_breaks_continuity: C03's relist repairs it); while something is outstanding some pipeline step is enabled and each step decreases the lag measure.",
         "design_ref": "DESIGN.md §7 C04",
         "note": "Trusted as for C03. The bound 'within the reconnect delay' is exhibited in virtual time. Buffer overflows of the watch buffers are excluded (C10).",
         "technique": "Lean 4 proof (cut invariant + progress/variant on the watch pipeline) + behavioural conformance with reconnect faults under testing/synctest",
